@@ -13,4 +13,4 @@ if s.count(b2) == 1 and s.count(e2) == 1:
     t2 = subprocess.check_output([sys.executable, os.path.join(root, "tools", "bounds_table.py")], text=True)
     s = s[: s.index(b2) + len(b2)] + "\n" + t2 + s[s.index(e2):]
 open(p, "w").write(s)
-print("DESIGN.md 8.5 / 8.8 updated")
+print("DESIGN.md 8.5 / 8.7 updated")
